@@ -293,6 +293,8 @@ def check_linker(case):
 
 def check_symbols(case):
     text, _ = G.render_program(case['prog'], case.get('tape') or [])
+    if 'text' in case:
+        text = case['text']          # (scripts without any statement)
     parsed = attempt(fsic.parse_model, text)
     res = Result(classes=['symbols'])
     if not parsed.ok:
@@ -302,8 +304,8 @@ def check_symbols(case):
     has_none = any(s.name is None or s.equation is None or s.lags is None for s in symbols)
     res.nontrivial = has_none
     if not symbols:
-        res.tag('empty-symbol-list')
-        return res
+        res.tag('empty-symbol-list')      # "all symbol lists the parser can produce": the empty one comes back empty
+        res.nontrivial = True
     out = attempt(lambda: tools.dataframe_to_symbols(tools.symbols_to_dataframe(symbols)))
     if not out.ok:
         res.fail(f'symbols/raised-{out.exc_name}', f'{text!r}: {out!r}')
@@ -365,6 +367,10 @@ def gen_symbols():
     def gen():
         for prog in G.enumerate_programs(3):
             yield {'prog': prog}
+        for text in ('', '\n\n', '# only a comment', '   \n# a\n\t\n# b\n'):
+            yield {'prog': [], 'text': text}
+        yield {'prog': [['block', '']]}
+        yield {'prog': [['block', '# note']]}
         yield {'prog': [['block', 'pass']]}
         yield {'prog': [['block', 'pass'], ['block', 'pass']]}
         yield {'prog': [['block', 'x = 1'], ['assign', ['var', 'Y', 'v', None], ['var', 'X', 'v', -1]], ['block', 'x = 1'], ['block', 'x = 1']]}
